@@ -109,7 +109,7 @@ def slab_arithmetic(ctx, rep, rule: str, classes: list[str]) -> None:
     repo = ctx.repo
     for cq in classes:
         ci = repo.cls(cq)
-        inner = A.worker(repo, ci.methods["_split_tensor_block_recovery"])
+        inner = A.worker(repo, repo.meth(ci, "_split_tensor_block_recovery"))
         defs = {n.targets[0].id: n.value for n in A.walk_no_nested(inner.node) if isinstance(n, ast.Assign) and isinstance(n.targets[0], ast.Name)}
         need = ["center_split_start_idx", "center_split_end_idx", "center_split_start_idx_in_block", "length_of_center_split", "left_split_tensor_size", "center_split_end_idx_in_block", "right_split_tensor_size"]
         missing = [n for n in need if n not in defs]
